@@ -52,7 +52,9 @@ impl Uci {
             #[cfg(rce_verif)]
             crate::verif_hooks::session_state(&self.board);
             let mut line = String::new();
-            input.read_line(&mut line).unwrap();
+            if input.read_line(&mut line).unwrap() == 0 {
+                break; // End of input
+            }
             let trimmed = line.trim();
             let fields: Vec<_> = trimmed.split_whitespace().collect();
 
